@@ -45,7 +45,7 @@ VStats(e) ==
   ELSE IF NormStats(e.deep_stats) # want THEN "C21_deep_stats"
   ELSE ""
 
-Verdict(e) == CASE e.ev = "manifest" -> VManifest(e) [] e.ev = "stats" -> VStats(e) [] OTHER -> "unknown_event"
+Verdict(e) == CASE e.ev = "manifest" -> VManifest(e) [] e.ev = "stats" -> VStats(e) [] e.ev = "crash" -> "C21_Crash" [] OTHER -> "unknown_event"
 
 TraceInit == tid \in 1..Len(Traces) /\ l = 1 /\ bad = "none"
 TraceNext ==
